@@ -286,7 +286,8 @@ func itemKey(it Item) string {
 // runExplicit: statements whose expected result is written out.
 func (p *c02) runExplicit(r *core.CaseResult) {
 	doc := func() map[string]any {
-		return map[string]any{"t": []any{map[string]any{"id": 0.0, "a": 1.0}, map[string]any{"id": 1.0, "a": 2.0}}, "k": "v"}
+		return map[string]any{"t": []any{map[string]any{"id": 0.0, "a": 1.0}, map[string]any{"id": 1.0, "a": 2.0}}, "k": "v",
+			"m": []any{map[string]any{"id": 0.0, "a": 1.0}, []any{map[string]any{"id": 1.0, "a": 2.0}, map[string]any{"id": 2.0, "a": 0.0}}, map[string]any{"id": 3.0, "a": 5.0}}}
 	}
 	docStar := func(extra map[string]any) []any {
 		row := doc()
@@ -309,6 +310,10 @@ func (p *c02) runExplicit(r *core.CaseResult) {
 		{"SELECT id, 'caf\\é' AS v, CASE WHEN a > 1 THEN 'th\\é' ELSE 'x\\'' END AS w FROM t", []genql.QueryOption{genql.PostgresEscapingDialect()},
 			[]any{map[string]any{"id": 0.0, "v": "café", "w": "x'"}, map[string]any{"id": 1.0, "v": "café", "w": "thé"}}},
 		{"SELECT id, 'caf\\é' AS v FROM t WHERE a > 1", nil, []any{map[string]any{"id": 1.0, "v": "café"}}},
+		// a table of mixed depth (rows next to inner arrays): every row is filtered and projected where it sits
+		{"SELECT id FROM m WHERE a > 1", nil, []any{[]any{map[string]any{"id": 1.0}}, map[string]any{"id": 3.0}}},
+		{"SELECT id, a + 1 AS b FROM m WHERE a < 5", nil, []any{map[string]any{"id": 0.0, "b": 2.0}, []any{map[string]any{"id": 1.0, "b": 3.0}, map[string]any{"id": 2.0, "b": 1.0}}}},
+		{"SELECT id FROM m WHERE a > 100", nil, []any{[]any{}}},
 	}
 	for _, c := range cases {
 		o := gq.Run(doc(), c.sql, c.opts...)
